@@ -7,10 +7,21 @@
     capacity, ...) and EVERY schedule [sched : list tid] of producers, consumers, the completion
     goroutine, the caller of Wait and the environment's Kill.  [run] skips disabled steps.
 
-    NOT proved: termination of the busy-poll loop (that every fair schedule eventually makes all
-    consumers exit).  It needs fairness of the Go scheduler, which is not modelled;
-    C08_no_stuck_partial only shows that nothing is ever stuck. *)
-From GC Require Import Common.Base Model.Loop Proofs.Loop.
+    Termination (second half of the file).  Fairness of the Go scheduler is not an axiom here.
+    What is proved instead, for every consumer limit >= 1 and queue capacities >= 1:
+    a progress measure [work] that every step other than a consumer's polling step makes strictly
+    smaller (C08_work_measure); every stretch of a schedule in which each thread gets a turn and each
+    consumer POLL = 9 turns makes [work] smaller unless the walk has ended (C08_round_progress); hence
+    [work s] such stretches after ANY reachable state [s] end the walk: every consumer has exited
+    and Wait has returned, and, unless the lifecycle was killed, every producer and the completion
+    goroutine have ended too and the callbacks made are exactly the selected nodes
+    (C08_fair_finish); the round-robin schedule of explicit length is such a continuation
+    (C08_wait_can_return, C08_round_robin_finishes, C08_round_robin_bound), so no reachable state
+    is a trap (C08_can_finish).  After a kill the producers and the completion goroutine CAN be
+    left blocked for ever on a full queue (C08_kill_leak_refuted; also true of the Go code).
+    NOT proved: anything about schedules that starve a thread for ever (then the walk really does
+    not end: a consumer may poll for ever while the producer it waits for is never scheduled). *)
+From GC Require Import Common.Base Model.Loop Model.LoopLive Proofs.Loop Proofs.LoopLive.
 From Coq Require Import Permutation.
 Open Scope N_scope.
 
@@ -150,4 +161,161 @@ Example C08_blocked_producer :
   let s := run ex_cfg (repeat (TP 0%nat) 10%nat ++ repeat (TP 1%nat) 10%nat) (init ex_cfg f16_base ex_root) in
   step ex_cfg (TP 1%nat) s = None /\ nth_error (prods s) 1%nat = Some (PRun PE [([46; 47; 97; 47], [File [120]; Dir [98] [File [121]]])]) /\
   length (fq s) = 1%nat.
+Proof. vm_compute. repeat split. Qed.
+
+(** ---------- termination *)
+
+(** The progress measure.  Every enabled step of every thread makes [work] strictly smaller (and
+    never starts more producers than it takes off [work]), with two exceptions that change nothing
+    else: a consumer moving inside the polling part of its loop as described by [cnext] (only that
+    consumer's program counter changes), and a Kill of a lifecycle that is killed already. *)
+Theorem C08_work_measure : forall cfg t s s',
+  step cfg t s = Some s' ->
+  ((work s' < work s)%nat /\ (length (prods s') + work s' <= length (prods s) + work s)%nat) \/
+  (exists i c c', t = TC i /\ nth_error (cons s) i = Some c /\ cnext_of cfg s c = Some c' /\
+                  s' = setc i c' s /\ work s' = work s) \/
+  (t = TX /\ killed s = true /\ s' = s).
+Proof. exact work_measure_full. Qed.
+Print Assumptions C08_work_measure.
+
+(** In every reachable state one round of the round-robin schedule (every producer slot once, every
+    consumer POLL = 9 times, the completion goroutine, the caller of Wait) makes [work] strictly
+    smaller, unless every consumer has exited and Wait has returned and - if the lifecycle is not
+    killed - the producers and the completion goroutine have ended as well.  So in every state
+    that is not final some step that is not a polling step is at most one round away. *)
+Theorem C08_round_progress : forall cfg base root sched P,
+  (1 <= cmax cfg)%nat -> (1 <= dcap cfg)%nat -> (1 <= fcap cfg)%nat ->
+  let s := run cfg sched (init cfg base root) in
+  (length (prods s) <= P)%nat ->
+  (work (run cfg (rr_block cfg P) s) < work s)%nat \/
+  (all_exited s = true /\ waited s = true /\ (killed s = false -> finished s = true)).
+Proof. exact round_progress_full. Qed.
+Print Assumptions C08_round_progress.
+
+(** Bounded fairness is enough.  After any schedule [sched] (state [s]), let the run continue with
+    [work s] stretches, in each of which every producer slot, the completion goroutine and the
+    caller of Wait are scheduled at least once and every consumer at least POLL times, in any order,
+    with any other steps (also kills) in between ([complete]).  Then every consumer has exited and
+    Wait has returned; and if the lifecycle is not killed at the end, producers and completion
+    goroutine have ended and (current exit test) the callbacks made are exactly the selected
+    nodes, each once, with both queues empty and no error. *)
+Theorem C08_fair_finish : forall cfg base root sched P segs,
+  (1 <= cmax cfg)%nat -> (1 <= dcap cfg)%nat -> (1 <= fcap cfg)%nat ->
+  let s := run cfg sched (init cfg base root) in
+  (length (prods s) + work s <= P)%nat ->
+  Forall (fun seg => complete cfg P seg = true) segs -> (work s <= length segs)%nat ->
+  let s' := run cfg (sched ++ concat segs) (init cfg base root) in
+  all_exited s' = true /\ waited s' = true /\
+  (killed s' = false ->
+   finished s' = true /\
+   (xt cfg = ClosedThenEmpty ->
+    Permutation (log s') (sel_list cfg base root) /\ dq s' = [] /\ fq s' = [] /\ errs s' = [])).
+Proof. exact fair_finish_full. Qed.
+Print Assumptions C08_fair_finish.
+
+(** Wait can always return: from every reachable state - after errors and kills too - the
+    round-robin continuation [rr_from] (no Kill in it) makes every consumer exit and Wait return. *)
+Theorem C08_wait_can_return : forall cfg base root sched,
+  (1 <= cmax cfg)%nat -> (1 <= dcap cfg)%nat -> (1 <= fcap cfg)%nat ->
+  let s := run cfg sched (init cfg base root) in
+  let s' := run cfg (sched ++ rr_from cfg s) (init cfg base root) in
+  ~ In TX (rr_from cfg s) /\ all_exited s' = true /\ waited s' = true /\
+  (killed s' = false ->
+   finished s' = true /\
+   (xt cfg = ClosedThenEmpty ->
+    Permutation (log s') (sel_list cfg base root) /\ dq s' = [] /\ fq s' = [] /\ errs s' = [])).
+Proof. exact wait_returns_full. Qed.
+Print Assumptions C08_wait_can_return.
+
+(** No reachable state is a trap.  With no listing error and no callback error in the
+    configuration, after every schedule that has not killed the lifecycle there is a continuation
+    without Kill after which all producers, the completion goroutine and all consumers have ended,
+    Wait has returned, the lifecycle is still not killed, and (current exit test) the callbacks
+    made are exactly the selected nodes. *)
+Theorem C08_can_finish : forall cfg base root sched,
+  (1 <= cmax cfg)%nat -> (1 <= dcap cfg)%nat -> (1 <= fcap cfg)%nat ->
+  (forall p, rderr cfg p = false) -> (forall it, cberr cfg it = false) ->
+  killed (run cfg sched (init cfg base root)) = false ->
+  exists sched', ~ In TX sched' /\
+    let s' := run cfg (sched ++ sched') (init cfg base root) in
+    finished s' = true /\ killed s' = false /\
+    (xt cfg = ClosedThenEmpty ->
+     Permutation (log s') (sel_list cfg base root) /\ dq s' = [] /\ fq s' = [] /\ errs s' = []).
+Proof. exact can_finish_ex. Qed.
+Print Assumptions C08_can_finish.
+
+(** The continuation of C08_can_finish, explicitly: [work s] rounds of round robin over
+    [length (prods s) + work s] producer slots. *)
+Theorem C08_round_robin_finishes : forall cfg base root sched,
+  (1 <= cmax cfg)%nat -> (1 <= dcap cfg)%nat -> (1 <= fcap cfg)%nat ->
+  (forall p, rderr cfg p = false) -> (forall it, cberr cfg it = false) ->
+  let s := run cfg sched (init cfg base root) in
+  killed s = false ->
+  let s' := run cfg (sched ++ rr_from cfg s) (init cfg base root) in
+  finished s' = true /\ killed s' = false /\
+  (xt cfg = ClosedThenEmpty ->
+   Permutation (log s') (sel_list cfg base root) /\ dq s' = [] /\ fq s' = [] /\ errs s' = []).
+Proof. exact can_finish_rr. Qed.
+Print Assumptions C08_round_robin_finishes.
+
+(** Its length, and the measure of the initial state: 12 + 2 per consumer + 5 per file + 13 per
+    directory of the tree. *)
+Theorem C08_round_robin_bound : forall cfg base root P n,
+  length (rr cfg P n) = (n * (P + POLL * cmax cfg + 2))%nat /\
+  work (init cfg base root) = (12 + lsz root + 2 * cmax cfg)%nat.
+Proof. exact (fun cfg base root P n => conj (rr_length cfg P n) (work_init cfg base root)). Qed.
+Print Assumptions C08_round_robin_bound.
+
+(** What does NOT hold: after a kill the rest of the machinery need not end.  No error anywhere,
+    limits and capacities 1, two files: the producer queues the first file and passes its kill
+    test, the lifecycle is killed, the consumer sees the kill and leaves, Wait returns.  The
+    producer then stays blocked in "fileChan <- second file" (queue full, no consumer left), the
+    completion goroutine stays blocked in producerPool.Wait(), the channels are never closed:
+    whatever is scheduled afterwards, the state does not change any more. *)
+Theorem C08_kill_leak_refuted :
+  let cfg := kl_cfg in
+  let s := run cfg kl_sched (init cfg kl_base kl_root) in
+  ((1 <= cmax cfg)%nat /\ (1 <= dcap cfg)%nat /\ (1 <= fcap cfg)%nat /\
+   (forall p, rderr cfg p = false) /\ (forall it, cberr cfg it = false)) /\
+  all_exited s = true /\ waited s = true /\ killed s = true /\ errs s = [] /\ log s = [] /\
+  comp s = K1 /\ closed s = false /\ length (fq s) = fcap cfg /\
+  nth_error (prods s) 0%nat = Some (PRun PE [(kl_base, [File [98]])]) /\
+  step cfg (TP 0%nat) s = None /\ step cfg TK s = None /\ finished s = false /\
+  forall sched', run cfg (kl_sched ++ sched') (init cfg kl_base kl_root) = s.
+Proof. exact kill_leak_full. Qed.
+Print Assumptions C08_kill_leak_refuted.
+
+(** ---------- non-vacuity of the termination theorems (vm_compute) *)
+
+(* the measure on the example tree, and the round-robin continuation from the initial state *)
+Example C08_work_example :
+  let s0 := init ex_cfg f16_base ex_root in
+  work s0 = 57%nat /\ length (rr_from ex_cfg s0) = 4446%nat /\
+  complete ex_cfg 58%nat (rr_block ex_cfg 58%nat) = true /\
+  let s := run ex_cfg (rr_from ex_cfg s0) s0 in
+  finished s = true /\ killed s = false /\ length (log s) = 5%nat /\ work s = 1%nat.
+Proof. vm_compute. repeat split. Qed.
+
+(* from a state in which a producer is blocked on a full queue (C08_blocked_producer) *)
+Example C08_can_finish_nonvacuous :
+  let s1 := run ex_cfg (repeat (TP 0%nat) 10%nat ++ repeat (TP 1%nat) 10%nat) (init ex_cfg f16_base ex_root) in
+  killed s1 = false /\ step ex_cfg (TP 1%nat) s1 = None /\ work s1 = 44%nat /\
+  let s := run ex_cfg (rr_from ex_cfg s1) s1 in
+  finished s = true /\ killed s = false /\ length (log s) = 5%nat.
+Proof. vm_compute. repeat split. Qed.
+
+(* a fair stretch need not be round robin: any order, kills in between *)
+Example C08_complete_example :
+  complete ex_cfg 2%nat ([TW; TX; TK] ++ repeat (TC 1%nat) 9%nat ++ [TP 1%nat] ++ repeat (TC 0%nat) 9%nat ++ [TP 0%nat]) = true /\
+  complete ex_cfg 2%nat ([TW; TK] ++ repeat (TC 1%nat) 9%nat ++ [TP 1%nat] ++ repeat (TC 0%nat) 8%nat ++ [TP 0%nat]) = false.
+Proof. vm_compute. split; reflexivity. Qed.
+
+(* after a callback error (C08_errors_nonvacuous) Wait still returns; the lifecycle is killed *)
+Example C08_wait_can_return_nonvacuous :
+  let cfg := mkCfg (fun _ => true) (fun _ => true) false true true (fun _ => false)
+                   (fun it => match it with IDir _ => true | _ => false end) 1%nat 1%nat 4%nat 4%nat ClosedThenEmpty in
+  let s1 := run cfg [TP 0%nat; TP 0%nat; TC 0%nat; TC 0%nat; TC 0%nat; TC 0%nat; TC 0%nat; TC 0%nat; TC 0%nat] (init cfg f16_base ex_root) in
+  all_exited s1 = false /\
+  let s := run cfg (rr_from cfg s1) s1 in
+  all_exited s = true /\ waited s = true /\ killed s = true /\ errs s = [ECb (IDir [46; 47; 97])].
 Proof. vm_compute. repeat split. Qed.
